@@ -92,7 +92,15 @@ def make_pair(rng):
     d = size * rng.choice([0.4, 0.8, 1.2, 3.0])
     off = (rng.uniform(-d, d), rng.uniform(-d, d))
     if r < 0.75:
-        a, _ = G.random_polygon(rng, rng.choice(["int", "float", "frac"]), (0, 0), size)
+        numa = rng.choice(["int", "float", "frac"])
+        a, _ = G.random_polygon(rng, numa, (0, 0), size)
+        if numa != "float" and rng.random() < 0.5:
+            # rational polygon x curved segments with rational control points (exact Newton path)
+            b, _ = G.random_blob(rng, (round(off[0]), round(off[1])), max(size, 4.0) * rng.choice([0.5, 1.0]), degree=rng.choice([2, 3]),
+                                 cw=rng.random() < 0.3, mixed=False, num="frac")
+            if rng.random() < 0.5:
+                a, b = b, a
+            return a, b, "poly-curved-rational"
         b, _ = G.random_simple(rng, None, True, off, size * rng.choice([0.5, 1.0]), cw=rng.random() < 0.3)
         if rng.random() < 0.5:
             a, b = b, a
